@@ -228,6 +228,20 @@ func (in *Interp) vsymCall(name string, args []Value, c *ssa.CallCommon) []Value
 				in.notes = appendNote(in.notes, "write to package-level variable "+e.obj.name)
 			}
 		}
+		// maps held in package-level variables that were updated while logging
+		for _, g := range in.globals {
+			for _, sv := range g.slots {
+				if mv, ok := sv.(*MapV); ok {
+					for _, w := range in.mapWrites {
+						if w == mv {
+							n++
+							in.notes = appendNote(in.notes, "update of the map held in package-level variable "+g.name)
+							break
+						}
+					}
+				}
+			}
+		}
 		return one(ts.IntConst64(in.intSort(), int64(n)))
 	case "JoinBalance":
 		// sends minus receives over all channels: 0 when every goroutine's token was collected
